@@ -1,0 +1,19 @@
+//go:build verif
+
+// Verification hooks (add-only, compiled only with `-tags verif`).  They let the verification
+// harness feed the prefork master's bookkeeping loop (maintainChildState, started by the real
+// StartMaster) exactly as the named-pipe reader does, and read the two bookkeeping counters.
+// Nothing here changes behaviour.
+package server
+
+// VerifInjectUpdate delivers one worker state report on the real update channel, exactly what
+// readNamedPipe does after decoding a 5-byte packet.  It returns once the loop has received it.
+func (zns *ZnPMServer) VerifInjectUpdate(pid int, state uint8) {
+	zns.updateChan <- workerState{pid: pid, state: state, cmd: nil}
+}
+
+// VerifCounters reads refCount and len(childs).  The read is not synchronised with the loop
+// (the loop owns both); callers poll until the values they wait for are seen.
+func (zns *ZnPMServer) VerifCounters() (refCount int, nChilds int) {
+	return zns.refCount, len(zns.childs)
+}
